@@ -38,7 +38,7 @@ FAULTS = ['raise', 'raise', 'wrong', 'mute', 'mute', 'interrupt', 'swap_stdout',
           'extra_line']
 
 
-def add_special_steps(rng, dt, pfx, modname):
+def add_special_steps(rng, dt, pfx, modname, others=()):
     steps = dt['steps']
     base = max(st['i'] for st in steps) + 1
     for j in range(rng.randint(1, 3)):
@@ -74,6 +74,13 @@ def add_special_steps(rng, dt, pfx, modname):
                       'dirs': rng.choice(TRAILERS)})
         if rng.random() < 0.5:
             steps.append({'i': base + 10, 'form': 'comment', 'pts': [], 'ps2': False, 'sep': 'none'})
+    if others and rng.random() < 0.12:
+        # everything depends on a module that the static lookup cannot find (the package is
+        # not on sys.path): unmet, whatever has been imported in this process meanwhile
+        steps.insert(0, {'i': base + 11, 'form': 'directive', 'pts': [], 'ps2': False, 'sep': 'none',
+                         'dirs': [['+', 'REQUIRES', 'module:' + rng.choice(others)]]})
+        if len(steps) > 1:
+            steps[1]['sep'] = 'none'
     gen.fix_chunk_starts(steps)
 
 
@@ -101,7 +108,7 @@ def generate(rng, tier):
         if pfx is None:
             pfx = 'zz%d' % n
         n += 1
-        add_special_steps(rng, dt, pfx, mod['name'])
+        add_special_steps(rng, dt, pfx, mod['name'], [m['name'] for m in world['modules']])
     world['extra_files'] = {'simsibling.py': 'VALUE = 7\n'}
     ids = gen.doctest_ids(world)
     ids = ids[:8]
